@@ -175,3 +175,17 @@ pub fn short(b: &[u8]) -> String {
 pub fn hash_bytes(b: &[u8]) -> u64 {
   fnv(b)
 }
+
+/// `Sharks(t).dealer(secret)`; in the build without star-sharks' `std` feature (where that convenience does not
+/// exist) the same dealing through `dealer_rng` with the OS random source
+pub fn sharks_dealer(t: u32, secret: &[u8]) -> Result<star_sharks::Evaluator, String> {
+  #[cfg(feature = "sharks-std")]
+  {
+    star_sharks::Sharks(t).dealer(secret).map_err(|e| e.to_string())
+  }
+  #[cfg(not(feature = "sharks-std"))]
+  {
+    let mut rng = rand::rngs::OsRng;
+    star_sharks::Sharks(t).dealer_rng(secret, &mut rng).map_err(|e| e.to_string())
+  }
+}
